@@ -88,7 +88,8 @@ def case_strategy():
             ),
             "container": st.sampled_from(["raw", "raw", "pe", "xorpe", "xorpe"]),
             "arch": st.sampled_from(["x86", "x64"]),
-            "stub": st.one_of(st.binary(max_size=64), st.integers(0, 1000).map(lambda n: b"\x90" * n)),
+            # (up to the last offset of the 1024-byte search range: a stage located through its size field only)
+            "stub": st.one_of(st.binary(max_size=64), st.integers(0, 1000).map(lambda n: b"\x90" * n), st.sampled_from([1001, 1016, 1017, 1020, 1023]).map(lambda n: b"\x90" * n)),
             "nonce": st.binary(min_size=4, max_size=4),
             "marker_mode": st.sampled_from(["both", "marker_only", "size_only"]),
             "prepend": st.one_of(st.just(0), st.integers(0, 900)),
